@@ -612,6 +612,11 @@ impl IndexTable {
 		}
 		Ok(())
 	}
+
+	#[cfg(pdb_verif)]
+	pub(crate) fn verif_has_file(&self) -> bool {
+		self.map.read().is_some()
+	}
 }
 
 #[cfg(test)]
